@@ -76,8 +76,8 @@ PROPS.update({
     "C16": dict(pkg="./props/c16_events", tests=[REGRESS(), T("TestEvents", (8, 6000), (16, 120000))],
         rule=COMPOSE_RULE + "at least 3 distinct listener kinds fired and at least one of {abort, exhaustion, rejection, cache hit, fallback, timeout, nested retries}. Every listener of every builder and of the executor is registered into one recorder.",
         assumptions=COMPOSE_ASSUMPTIONS),
-    "C17": dict(pkg="./props/c17_stats", tests=[REGRESS(), T("TestStats", (8, 6000), (16, 120000))],
-        rule=COMPOSE_RULE + "at least one retry happened and at least one attempt was rejected before reaching the function (breaker, bulkhead or rate limiter). Observation points: function entry, every listener, fallback functions, completion events.",
+    "C17": dict(pkg="./props/c17_stats", tests=[REGRESS(), T("TestStats", (8, 6000), (16, 120000)), T("TestHedgedStats", (4, 1000), (8, 15000), pkg="./props/c09_hedge")],
+        rule=COMPOSE_RULE + "at least one retry happened and at least one attempt was rejected before reaching the function (breaker, bulkhead or rate limiter). Observation points: function entry, every listener, fallback functions, completion events. Hedged executions (TestHedgedStats, from the C09 harness) count as non-trivial when at least two attempts overlapped.",
         assumptions=COMPOSE_ASSUMPTIONS + ["LastResult/LastError are not compared at observation points where the execution's context is already done (LastError then reports the context error by design)"]),
 })
 
@@ -110,4 +110,15 @@ PROPS["C07"] = dict(
     rule="rapid-generated trials run in concurrent batches of 96: time limit 1..20 ms, function duration in {0, limit/2, a dense band 0.8..1.2 x limit, 2 x limit, block until cancelled} realised by sleeping or spinning, sync or async, in 8 placements (alone, retry(timeout), timeout(retry), fallback(timeout), timeout(fallback), timeout(hedge), timeout(bulkhead) and timeout(limiter) with and without a pending wait); the oracle accepts either side of the race but requires the triple (result, listener count, cancellation) to be consistent and ErrExceeded never to precede the limit; non-trivial = duration in the racing band or blocking, or at least 2 attempts; distinct = hash of (placement, duration kind, limit bucket, factor, spin, error, failures, waiting, arm taken)",
     assumptions=["timing assertions are lower bounds on monotonic time only (sandbox stalls of 50-130 ms were measured); 'listener never called' is checked after a grace period of 2 x limit + 30 ms, 'listener called / execution cancelled' is polled for up to 30 s",
                  "the schedule is sampled by the Go scheduler and real timers, not enumerated"],
+)
+
+PROPS["C09"] = dict(
+    pkg="./props/c09_hedge",
+    tests=[REGRESS(), T("TestHedge", (8, 1200), (16, 20000))],
+    replay_reps=300,
+    require_classes=["final-path=true", "overlapped=true"],
+    rule="rapid-generated hedged executions: maxHedges 0..4, a generated delay per hedge from {0, 0.2, 1, 3, 5 ms, 1 h}, cancel conditions {default, CancelOnResult, CancelOnErrors, CancelIf}, an outcome per attempt (assigned by order of entry), placements {alone, inside retry, inside a never-firing timeout, inside a fallback}, sync/async; gated mode: every attempt parks on a harness channel and is released in a generated permutation (exact step oracle); auto mode: attempts last a generated 0..8 ms or until cancelled and race with the hedge timers (race-agnostic log oracle); non-trivial = at least 2 attempts overlapped and (the winner was not the first attempt or the all-finished path delivered the result); distinct = the scenario",
+    assumptions=["attempts are identified by order of entry; spacing is a lower bound on order statistics of the entries and on the OnHedge calls",
+                 "a cancel-matching result that loses the hand-off to the final result of the last attempt is accepted when all attempts have finished (DESIGN.md L8)",
+                 "timing assertions are lower bounds only; 'does not return' is observed for 0.3 ms, 'returns' is awaited for 30 s"],
 )
